@@ -560,6 +560,11 @@ func lookup(r *denco.Router, path string) (o obs) {
 	return o
 }
 
+// caseIndex derives a stable small number from the case descriptor (its number of records, orders and paths).
+func caseIndex(d M) int {
+	return len(drv.List(d["records"])) + len(drv.List(d["orders"])) + len(drv.List(d["paths"]))
+}
+
 func execute(c *drv.Ctx, d M) bool {
 	if drv.Str(d["kind"]) == "mux" {
 		return executeMux(c, d)
@@ -586,12 +591,30 @@ func execute(c *drv.Ctx, d M) bool {
 			hints = append(hints, h)
 		}
 	}
+	// the caller's records: every second case hands one and the same []Record (permuted in place) to every Build,
+	// as a caller comparing insertion orders or rebuilding after a reconfiguration does; the other cases hand a
+	// fresh slice to each Build.  Build must not depend on what an earlier Build did with its argument.
+	shared := caseIndex(d)%2 == 0
+	var backing []denco.Record
 	for oi, o := range orders {
 		var recs []denco.Record
-		for _, i := range drv.List(o) {
-			k := drv.Int(i)
-			recs = append(recs, denco.NewRecord(pats[k].Key(), vals[k]))
+		if shared && oi > 0 {
+			// permute in place the very records the previous Build was given
+			prev := map[int]denco.Record{}
+			for _, rec := range backing {
+				prev[rec.Value.(int)] = rec
+			}
+			recs = backing[:0]
+			for _, i := range drv.List(o) {
+				recs = append(recs, prev[vals[drv.Int(i)]])
+			}
+		} else {
+			for _, i := range drv.List(o) {
+				k := drv.Int(i)
+				recs = append(recs, denco.NewRecord(pats[k].Key(), vals[k]))
+			}
 		}
+		backing = recs
 		r := denco.New()
 		if hints[oi] >= 0 {
 			r.SizeHint = hints[oi]
